@@ -38,7 +38,7 @@ func runC03(r *Run, p *Prog) {
 	ro := DiscoverRoles(p)
 	T := ro.T
 	cm := buildClientModel(p, ro)
-	entry := dispatchEntry(p, ro)
+	entry := dispatchView(p, ro)
 	if cm.Send == nil || cm.Decode == nil || cm.CallLit == nil || entry == nil {
 		r.Unresolved("P1", "client Send/receive and service dispatch entry")
 		return
